@@ -142,7 +142,7 @@ func rtcGen(c *Ctx) {
 	if c.Want("hist") {
 		// random histories of latch / read / write / halt operations interleaved with elapsed time, through the mapper
 		rng := c.Rand(1002)
-		count := 150
+		count := 300
 		if c.Thorough() {
 			count = 3000
 		}
